@@ -364,3 +364,473 @@ def not_found_test(views, cd, pred=None):
                 elif 'NotFound' not in taken and any('NotFound' in n for n in rest):
                     out.append((e, False))
     return out
+
+
+# ---- "every entry of the listing is visited" ------------------------------------------------------------------------------
+# The platform env reader has to look at *every* entry: the loop / iterator pipeline between the directory listing and the
+# insert effect may not stop early (break / early success return / take_while / map_while / a short-circuiting consumer
+# whose failure is tolerated) and may not drop elements by position or by an unrecognised per-element test.
+def _reach_skipping_edge(fn, start, edge):
+    seen, work = set(), [start]
+    while work:
+        b = work.pop()
+        if b in seen:
+            continue
+        seen.add(b)
+        for s in fn.succs(b):
+            if (b, s) != edge:
+                work.append(s)
+    return seen
+
+
+_PASS_ALL = None
+
+
+def pipeline_problems(v, depth=0):
+    """adapters between an iterated expression and its source that make the consumer see fewer elements than the source
+    yields: [description]; adapters that keep every element (map / inspect / enumerate / rev / collect / by_ref ..) pass"""
+    from .lib import iters
+    global _PASS_ALL
+    if _PASS_ALL is None:
+        _PASS_ALL = set(iters.SAME) | set(iters.COLLECTING) | {iters.IT + 'map', iters.IT + 'inspect', iters.IT + 'enumerate',
+                                                                 'std::iter::IntoIterator::into_iter'}
+    out = []
+    while depth < 24 and isinstance(v, tuple) and v:
+        depth += 1
+        if v[0] in ('unwrap', 'updated'):
+            v = v[1]
+            continue
+        if v[0] == 'phi':
+            for x in v[1]:
+                out.extend(pipeline_problems(x, depth))
+            return out
+        if v[0] != 'call' or not v[2]:
+            break
+        name = v[1]
+        if name == iters.IT + 'chain' and len(v[2]) == 2:
+            out.extend(pipeline_problems(v[2][1], depth))
+            v = v[2][0]
+        elif name in _PASS_ALL or (iters._is_source(name) and name.endswith(iters.SAME_ELEMS)):
+            v = v[2][0]
+        elif name in iters.TRUNCATING:
+            out.append('%s stops / skips by position: later entries are never looked at' % name.rsplit('::', 1)[-1])
+            v = v[2][0]
+        elif name.startswith(iters.IT) or name.startswith('std::iter::'):
+            out.append('%s may drop entries' % name.rsplit('::', 1)[-1])
+            v = v[2][0]
+        else:
+            break
+    return out
+
+
+def exhaustive_problems(E, e):
+    """why the effect e (an Eff reached from the entry function) may not run for every element of the iteration(s) it sits
+    in: [] when every loop around it (at every level of the call chain) is left on success only by exhaustion and every
+    iterator consumer running it visits all elements; None when a level has a shape this analysis does not model"""
+    from .lib import iters
+    from .lib.effects import Link
+    sl = E.slicer
+    problems = []
+    levels = [l.call for l in e.chain if isinstance(l, Link)] + [e.call]
+    for call in levels:
+        g = call.fn
+        for L in E.loops(g):
+            if call.bb not in L.body or call.bb == L.header:
+                continue
+            if getattr(L, 'exhaust', None) is None:
+                return None
+            early = _reach_skipping_edge(g, L.header, L.exhaust)
+            for st in E.sites(g):
+                if st.bb in early:
+                    problems.append('%s: the loop can be left towards a success return (bb%d) without being exhausted'
+                                    % (g.path.split('::')[-1], st.bb))
+                    break
+            problems.extend(pipeline_problems(L.collection))
+    for l in e.chain:
+        if not isinstance(l, Link):
+            continue
+        c = l.call
+        d = c.decl or ''
+        if not d.startswith('std::iter::'):
+            continue
+        if d in iters.CONSUME_EACH or d in (iters.IT + 'fold', iters.IT + 'try_fold'):
+            if E._short_circuits(c.fn, c):
+                problems.append('%s stops at the first failure and that failure can still end in success' % d.rsplit('::', 1)[-1])
+            problems.extend(pipeline_problems(sl.operand(c.fn, c.args[0])))
+        else:
+            return None     # the effect runs inside a lazy adapter's closure: who pulls it is not modelled
+    return problems
+
+
+# ---- the element Result of a fallible iterator ----------------------------------------------------------------------------
+def element_fates(prog, fn, call):
+    """fates (lib.discard) of the Result that `Iterator::next()` call `call` yields as Some payload: the local(s) it is moved
+    into are followed; a nested pattern (`Some(Ok(x))`) that never reads the Err payload drops the error"""
+    from .lib.discard import local_fates, Fate
+    if not call.dest or len(call.dest) != 1:
+        return [Fate('escapes', call, 'iterator element is not held in a local')]
+    fates, nested_ok, nested_err = [], False, False
+    for bi, kind, idx, how, pl in fn.uses_of(call.dest[0]):
+        projs = list(pl[1:])
+        if '@Some' not in projs:
+            continue
+        rest = projs[projs.index('@Some') + 2:]
+        if not rest and kind == 'stmt' and how != 'discr':
+            st = fn.blocks[bi]['s'][idx]
+            if len(st[1]) == 1 and st[2]['r'] in ('use', 'ref', 'cast'):
+                fates.extend(local_fates(prog, fn, st[1][0], {}, set(), 0) or [Fate('discarded', call, 'element is never read')])
+            else:
+                fates.append(Fate('escapes', call, 'element used in rvalue %s' % st[2]['r']))
+        elif not rest and kind == 'arg':
+            fates.append(Fate('escapes', call, 'element handed on as call argument'))
+        elif '@Err' in rest:
+            nested_err = True
+        else:
+            nested_ok = True
+    if nested_ok or nested_err:
+        fates.append(Fate('matched') if nested_err else Fate('discarded', call, 'pattern on the element never reads its Err payload'))
+    return fates
+
+
+def iterated_element(v):
+    """a sub-value `next(x)` of v where x is itself the element of an iteration: the element (a Result / Option) is used
+    as an iterator (flatten / into_iter), which silently skips its failure alternative"""
+    IT_NEXT = 'std::iter::Iterator::next'
+    for x in walk(v):
+        if x[0] == 'call' and x[1] == IT_NEXT and x[2]:
+            y = _strip(x[2][0])
+            if y[0] == 'call' and y[1] == IT_NEXT:
+                return x
+    return None
+
+
+# ---- the guards of the insert ----------------------------------------------------------------------------------------------
+_SUCCESS = frozenset({'Ok', 'Some', 'Continue'})
+_PEEL_RECV = ('std::ops::Try::branch', 'std::result::Result::<T, E>::map', 'std::result::Result::<T, E>::map_err',
+              'std::result::Result::<T, E>::and_then', 'std::result::Result::<T, E>::inspect_err', 'std::result::Result::<T, E>::inspect',
+              'std::result::Result::<T, E>::as_ref', 'std::option::Option::<T>::as_ref', 'std::option::Option::<T>::map',
+              'std::option::Option::<T>::and_then', 'std::option::Option::<T>::ok_or', 'std::option::Option::<T>::ok_or_else',
+              'std::result::Result::<std::option::Option<T>, E>::transpose', 'std::option::Option::<std::result::Result<T, E>>::transpose',
+              'std::option::Option::<T>::as_deref', 'std::option::Option::<&T>::cloned', 'std::option::Option::<&T>::copied',
+              # `iter.collect::<Result<Vec<_>, _>>()` is Ok exactly when every element is: a decision about the elements' source
+              'std::iter::Iterator::collect', 'std::iter::FromIterator::from_iter', 'std::iter::IntoIterator::into_iter')
+_INPUT_ROOTS = ('std::fs::read_dir', 'std::iter::Iterator::next', 'std::path::Path::file_name', 'std::fs::DirEntry::file_name',
+                'std::fs::read_to_string', 'std::fs::DirEntry::path') + tuple(_FOLLOW)
+
+
+def success_root(v):
+    """the call whose success / presence a `is Ok / Some / Continue` decision on v is about: `?`, Ok-preserving combinators
+    and payload projections peeled"""
+    for _ in range(24):
+        v = _strip(v)
+        if v[0] == 'call' and v[2] and v[1] in _PEEL_RECV:
+            v = v[2][0]
+            continue
+        if v[0] in ('field', 'variant') and isinstance(v[1], tuple):
+            v = v[1]
+            continue
+        break
+    return v
+
+
+def extra_guards(sl, prog, guards, path_ok):
+    """guards (format of effects.guards_of) of the insert that are neither "an input read succeeded / is present" nor a
+    file-type test that `is_file` of the entry implies: [(description)] — each one makes the reader skip regular files"""
+    from .lib.value import vstr
+    out = []
+    for cd, views, subj in guards:
+        if cd.kind == 'variant':
+            root = success_root(subj if subj is not None else cd.value)
+            ok = (cd.enum or '').rsplit('::', 1)[-1] in ('Result', 'Option', 'ControlFlow') and cd.outcome <= _SUCCESS and \
+                root[0] == 'call' and (root[1] in _INPUT_ROOTS or (root[1] in prog.fns and prog.fns[root[1]].crate.startswith('libcnb')))
+            if not ok:
+                out.append('%s is %s' % (vstr(subj if subj is not None else cd.value)[:90], '|'.join(sorted(cd.outcome))))
+        elif cd.kind == 'bool':
+            good = False
+            for val, oc in views:
+                ft = file_test(sl, val)
+                if ft is not None and path_ok(ft[1]) and ((ft[0] == 'is_file' and oc is True) or (ft[0] == 'is_dir' and oc is False)
+                                                           or (ft[0] == 'exists' and oc is True)):
+                    good = True
+            if not good:
+                val, oc = views[0] if views else (cd.value, cd.outcome)
+                out.append('%s == %s' % (vstr(val)[:90], oc))
+        else:
+            out.append('%s decision on %s' % (cd.kind, vstr(cd.value)[:90]))
+    return out
+
+
+# ---- a value read from one environment variable, unmodified ---------------------------------------------------------------
+_STR_SAME = ('::to_owned', '::to_string', '::clone', '::into', '::from', '::into_string', '::as_ref', '::borrow', '::deref', '::as_str',
+             '::into_boxed_str', '::to_os_string', '::into_os_string')
+_ERR_ONLY = ('std::result::Result::<T, E>::map_err', 'std::result::Result::<T, E>::inspect_err', 'std::result::Result::<T, E>::ok',
+             'std::ops::Try::branch', 'std::result::Result::<T, E>::or_else')
+
+
+def env_var_exact(v, depth=0):
+    """name N when v is the content of environment variable N as read by env::var / var_os, possibly moved between string
+    types, with error-side adapters (`map_err`, `?`, `.ok()`) and Some(..) wrapping only; None as soon as anything computes
+    on the content (case mapping, trimming, filtering, defaults ..)"""
+    if depth > 16 or not isinstance(v, tuple) or not v:
+        return None
+    v = _strip(v)
+    if v[0] == 'call' and v[1] in ('std::env::var', 'std::env::var_os') and len(v[2]) == 1:
+        a = _strip(v[2][0])
+        return a[1] if a[0] == 'const' and isinstance(a[1], str) else None
+    if v[0] == 'call' and v[2] and (v[1] in _ERR_ONLY or (len(v[2]) == 1 and v[1].endswith(_STR_SAME))):
+        return env_var_exact(v[2][0], depth + 1)
+    if v[0] == 'agg' and v[2] in ('Some', 'Ok') and len(v[3]) == 1:
+        return env_var_exact(v[3][0][1], depth + 1)
+    if v[0] == 'phi':
+        names = set()
+        for x in v[1]:
+            x0 = _strip(x)
+            if x0[0] == 'agg' and x0[2] == 'None':
+                continue
+            names.add(env_var_exact(x, depth + 1))
+        return names.pop() if len(names) == 1 else None
+    return None
+
+
+def entry_path_of(kv, vv):
+    """the path of the directory entry an insert is about, from its (normalised) key / value: the file that is read"""
+    if vv[0] == 'call' and vv[1] == 'std::fs::read_to_string' and vv[2]:
+        return _strip(vv[2][0])
+    if kv[0] == 'call' and kv[1] == 'std::path::Path::file_name' and kv[2]:
+        return _strip(kv[2][0])
+    return None
+
+
+# ---- the Env that is returned ----------------------------------------------------------------------------------------------
+_FRESH = ('libcnb::env::Env::new', '<libcnb::env::Env as std::default::Default>::default', 'std::default::Default::default')
+_FOLDS = ('std::iter::Iterator::fold', 'std::iter::Iterator::try_fold')
+
+
+def _fresh(sl, v):
+    v = _strip(v)
+    if v[0] == 'call' and v[1] in _FRESH and not v[2]:
+        if v[1] == 'libcnb::env::Env::new':
+            f = sl.prog.fns.get(v[1])
+            b = _strip(sl.local(f, 0)) if f is not None else ('unknown',)
+            return b[0] == 'call' and b[1] in _FRESH[1:] and not b[2]
+        return True
+    return False
+
+
+def fresh_env_problems(E, pe, ins_effs):
+    """[] when (a) the Env every insert effect writes to is a fresh empty Env (or the accumulator of a fold that starts
+    from one and hands it on), and (b) every success alternative of `pe` returns such an Env — the one written to"""
+    from .lib.effects import Link
+    from .lib.value import vstr
+    sl = E.slicer
+    out = []
+    recv_sites = set()
+    for e in ins_effs:
+        r = _strip(e.args[0]) if e.args else ('unknown',)
+        if _fresh(sl, r):
+            recv_sites.add(r[3] if len(r) > 3 else None)
+            continue
+        links = [l for l in e.chain if isinstance(l, Link)]
+        fold = links[-1].call if links else None
+        if r[0] == 'param' and fold is not None and fold.decl in _FOLDS and len(fold.args) == 3 and r[1] == e.call.fn.path:
+            init = sl.operand(fold.fn, fold.args[1])
+            acc = _strip(sl.mk_unwrap(sl.local(e.call.fn, 0), 1))
+            if not _fresh(sl, init):
+                out.append('fold starts from ' + vstr(init)[:80])
+            elif acc != r:
+                out.append('the fold closure does not hand its accumulator on: ' + vstr(acc)[:80])
+            else:
+                recv_sites.add(('fold', fold.fn.path, fold.bb))
+            continue
+        out.append('variables are inserted into ' + vstr(r)[:80])
+    for rv, _gs in returns(E, pe):
+        pv = _peel(sl, norm(sl, rv), 1) if pe.ret.startswith('std::result::Result<') else rv
+        if pv is None:
+            continue
+        pv = _strip(pv)
+        if _fresh(sl, pv):
+            continue        # an empty Env (missing env directory) or the one written to: both start empty
+        if pv[0] == 'call' and pv[1] in _FOLDS and len(pv[2]) == 3 and _fresh(sl, pv[2][1]):
+            continue
+        out.append('returns ' + vstr(pv)[:80])
+    if not out and recv_sites:
+        # the Env written to is one that is returned
+        rets = set()
+        for rv, _gs in returns(E, pe):
+            for x in walk(rv):
+                if x[0] == 'call' and x[1] in _FRESH and len(x) > 3:
+                    rets.add(x[3])
+                if x[0] == 'call' and x[1] in _FOLDS and len(x) > 3 and x[3]:
+                    rets.add(('fold', x[3][0], x[3][1]))
+        if not (recv_sites & rets):
+            out.append('the Env that receives the variables is not the one returned')
+    return out
+
+
+# ---- alternatives of a value ---------------------------------------------------------------------------------------------
+def alternatives(sl, v, depth=0):
+    """the alternative values a (normalised) value can take: phi alternatives, and under `unwrap` the success payload of each
+    alternative (literal failures have none)"""
+    if depth < 10 and isinstance(v, tuple) and v:
+        if v[0] == 'phi':
+            return [y for x in v[1] for y in alternatives(sl, x, depth + 1)]
+        if v[0] == 'unwrap':
+            out = []
+            for y in alternatives(sl, v[1], depth + 1):
+                p = _peel(sl, y, 1)
+                if p is not None:
+                    out.extend(alternatives(sl, p, depth + 1))
+            return out
+    return [v]
+
+
+def some_payload(v):
+    """x when v is Some(x) (aggregate or the `Some` constructor applied as a function), else None"""
+    v = _strip(v)
+    if v[0] == 'agg' and v[2] == 'Some' and len(v[3]) == 1:
+        return v[3][0][1]
+    if v[0] == 'call' and v[1].endswith('::Some') and len(v[2]) == 1:
+        return v[2][0]
+    return None
+
+
+# ---- which error kinds are tolerated ---------------------------------------------------------------------------------------
+def edge_cond(fn, sb, tb, sl):
+    """the decision taken by going from switch block sb to its target tb, as a guards.Cond (None if not expressible)"""
+    from .lib.guards import Cond, _discr_info
+    t = fn.blocks[sb]['t']
+    if t['t'] != 'switch':
+        return None
+    labels = [v for v, b in t['targets'] if b == tb] + (['else'] if t['else'] == tb else [])
+    if not labels:
+        return None
+    listed = [v for v, _ in t['targets']]
+    di = _discr_info(fn, sb, t['o'])
+    val = sl.operand(fn, t['o'])
+    if di:
+        place, vmap, enum = di
+        names = set()
+        for lab in labels:
+            if lab == 'else':
+                names |= {n for v, n in vmap.items() if v not in listed}
+            else:
+                names.add(vmap.get(lab, str(lab)))
+        return Cond(fn, sb, tb, 'variant', frozenset(names), val, sl.place(fn, place), enum)
+    if t.get('oty') == 'bool':
+        if labels == ['else'] and listed == [0]:
+            outcome = True
+        elif labels == [0]:
+            outcome = False
+        elif labels == [1]:
+            outcome = True
+        elif labels == ['else'] and listed == [1]:
+            outcome = False
+        else:
+            return None
+        while val[0] == 'un' and val[1] == 'Not':
+            val, outcome = val[2], not outcome
+        if val[0] == 'select' and all(rv[0] == 'const' and isinstance(rv[1], bool) for _, rv in val[3]):
+            names = frozenset(n for ns, rv in val[3] if rv[1] == outcome for n in ns)
+            return Cond(fn, sb, tb, 'variant', names, val, val[1], val[2])
+        cd = Cond(fn, sb, tb, 'bool', outcome, val)
+        cd._slicer = sl
+        return cd
+    return None
+
+
+def tolerated_without_not_found(fn, sl, start, success_bbs, pred=None, is_about=None):
+    """blocks of success_bbs reachable from `start` (the arm where a read has failed) without passing a decision that says
+    "the error's kind is exactly NotFound": every such block is a success under some other error kind.  Decisions are the
+    edges of switches: `kind() == / != NotFound`, `matches!(kind(), NotFound)`, `match kind() { NotFound => .. }`, the
+    workspace's not-found predicate (C06_helpers.not_found_test says `holds`); `is_about(error value)` restricts the
+    decisions to those on the error of this read."""
+    seen, work, hit = set(), [start], []
+    while work:
+        b = work.pop()
+        if b in seen:
+            continue
+        seen.add(b)
+        if b in success_bbs:
+            hit.append(b)
+            continue
+        t = fn.blocks[b]['t']
+        if t['t'] == 'switch':
+            for tb in set([x for _, x in t['targets']] + [t['else']]):
+                if fn.blocks[tb]['t']['t'] == 'unreachable':
+                    continue
+                cd = edge_cond(fn, b, tb, sl)
+                nf = not_found_test(cd.views() if cd is not None and cd.kind == 'bool' else [], cd, pred) if cd is not None else []
+                if any(holds is True and (is_about is None or is_about(ev)) for ev, holds in nf):
+                    continue     # beyond this edge the error is known to be NotFound: tolerated by the property
+                work.append(tb)
+        else:
+            work.extend(fn.succs(b))
+    return hit
+
+
+_SAME_STRING = ('::as_ref', '::borrow', '::deref', '::as_str', '::as_path', '::as_os_str', '::to_owned', '::clone', '::to_path_buf',
+                '::into', '::from', '::to_string', '::into_boxed_str', '::into_string')
+
+
+def same_string(v):
+    """peel calls that hand the same text / path on under another type (references, AsRef, to_owned, From / Into); unwrap
+    markers are kept (the caller decides about propagation)"""
+    for _ in range(12):
+        s = v
+        while s[0] == 'updated':
+            s = s[1]
+        if s[0] == 'call' and len(s[2]) == 1 and s[1].endswith(_SAME_STRING) and not s[1].startswith('std::result::') \
+                and not s[1].startswith('std::option::'):
+            v = s[2][0]
+            continue
+        return s
+    return v
+
+
+# ---- "not modified in place on the way" -----------------------------------------------------------------------------------
+# Symbolic values describe where a value comes from; an in-place change (`plan.entries.dedup_by(..)`, `key.make_ascii_uppercase()`)
+# of the local that carries it does not show in them.  carried_locals follows a value backwards through moves / copies /
+# aggregate operands / payload projections (and type-only conversions) to the calls that produced it; inplace_mutations
+# lists the places where one of those locals, or a part of it, is borrowed mutably or assigned to.
+def carried_locals(fn, starts, conv=_SAME_STRING):
+    from .lib.mir import op_place
+    seen, work = set(), list(starts)
+    while work:
+        l = work.pop()
+        if l in seen or l == 0 and l not in starts:
+            continue
+        seen.add(l)
+        if 1 <= l <= fn.argc:
+            continue
+        for d in fn.whole_defs(l):
+            if d[0] == 'stmt':
+                rv = d[3]
+                if rv['r'] in ('use', 'cast'):
+                    p = op_place(rv['o'])
+                    if p:
+                        work.append(p[0])
+                elif rv['r'] == 'agg':
+                    for o in rv['ops']:
+                        p = op_place(o)
+                        if p:
+                            work.append(p[0])
+            elif d[0] == 'call':
+                c = d[3]
+                if not c.indirect and len(c.args) == 1 and (c.decl or c.name or '').endswith(conv):
+                    p = op_place(c.args[0])
+                    if p:
+                        work.append(p[0])
+    return seen
+
+
+def inplace_mutations(fn, locals_):
+    out = []
+    for l in sorted(locals_):
+        for bi, kind, idx, how, pl in fn.uses_of(l):
+            if kind == 'stmt' and how == 'refmut':
+                # a reborrow of a `&mut` parameter's referent that is only handed back is not a change of the carried value
+                line = fn.blocks[bi]['s'][idx][3] if len(fn.blocks[bi]['s'][idx]) > 3 else '?'
+                out.append('%s%s is borrowed mutably (%s:%s)' % (fn.local_name(l) or '_%d' % l, ''.join(str(x) for x in pl[1:]), fn.file, line))
+        for d in fn.partial_defs(l):
+            out.append('%s is partly overwritten' % (fn.local_name(l) or '_%d' % l))
+    return out
